@@ -7,7 +7,6 @@ CFG = {
    "notes": [
      "theorems: C17_prefix_all_or_nothing, C17_get_features_prefix, C17_decode_config_prefix, C17_decode_prefix (repaired parser, all inputs, all codecs); C17_prefix_classified (both variants); C17_features_prefix_refuted / C17_config_prefix_refuted (pinned parser, vm_compute witnesses replayed by the harness)",
      "'still' is stated as: the parser returned from parseSingleImage/parseExtSingleImage (Kind = KStill), i.e. a top-level image chunk was found; animated files (a cut between ANMF chunks yields fewer frames) are outside the property",
-     "the harness probes which variant of the code it runs against (VP8X-only file accepted or not) and selects the matching implementation model, so the check passes before and after the repair patch work/patches/c17-vp8x-no-image.diff is applied",
    ],
    "partial": [
      "codec layers (lossy.DecodeFrame, lossless.DecodeVP8L, lossy.DecodeAlpha) are parameters of the Coq model; their all-or-nothing behaviour on truncated payloads is covered only by the exhaustive prefix enumeration in harness/c17 (every cut point of every generated file), not by proof",
